@@ -158,11 +158,22 @@ def run_batch(ctx, jinja2, hs, env=None, blocks_every=3):
     lines = [G.model_line(h, FUEL) for h in hs]
     out = ctx.driver("inh", lines)
     for idx, (h, line, ml) in enumerate(zip(hs, lines, out)):
-        srcs = G.sources(h) if env is None else dict({n: env.loader.mapping[n] for n in h["chain"]},
+        srcs = G.sources(h) if env is None else dict({n: env["plain"].loader.mapping[n] for n in h["chain"]},
                                                      **G.aux_templates(h))
         full = len(h["chain"]) == len([1 for n in h["chain"]])  # chain handed to the model is the effective one
-        real, rb = G.real_render(jinja2, h, want_blocks=(idx % blocks_every == 0), srcs=srcs if env is None else None,
-                                 env=env)
+        kind = "plain"
+        if isinstance(env, dict):
+            # skeleton: one shared environment per configuration; every 9th chain goes through another axis
+            kind = G.ENV_KINDS[(idx // 9) % len(G.ENV_KINDS)] if idx % 9 == 4 else "plain"
+            e = env[kind]
+        else:
+            e = env
+            if e is None and idx % 4 == 1:
+                kind = G.ENV_KINDS[(idx // 4) % len(G.ENV_KINDS)]
+        wb = (idx % blocks_every == 0) and kind == "plain"
+        real, rb = G.real_render(jinja2, h, want_blocks=wb, srcs=srcs if e is None else None, env=e, kind=kind,
+                                 history=(e is None and idx % 3 == 2))
+        ctx.count("env:" + kind)
         if rb is not None:
             # blocks_of_chain assumes every template of the chain registered its parent
             m = parse_model(ml)[0]
@@ -198,7 +209,9 @@ def run(ctx):
         "in EFuel must end in RecursionError on the engine",
         "the chain handed to the model is the one the harness computes from the extends statements it generated "
         "(constant / dynamic name / template object / conditional)",
-        "autoescape off; block bodies restricted to text, variables, block sites, super chains, self calls, for loops",
+        "block bodies restricted to text, variables, block sites, super chains, self calls, for loops and opaque "
+        "output statements; configurations sampled: sync / async rendering, autoescape on / off, sandboxed environment "
+        "(the model is configuration independent: all must give the same text)",
     ]
     ctx.proof("C04")
     # translator tie: the current source of Context.super, BlockReference.super and BlockReference.__call__, as terms
@@ -219,7 +232,7 @@ def run(ctx):
                 tmpl[(lvl, vi, child)] = t
                 srcs[name] = G.source(t, lvl)
                 srcs.update(G.aux_templates({"templates": [t]}))
-    env = jinja2.Environment(loader=jinja2.DictLoader(srcs), cache_size=-1)
+    env = {k: G.make_env(jinja2, jinja2.DictLoader(srcs), k, cache_size=-1) for k in G.ENV_KINDS}
     hs = []
 
     def emit(combo):
